@@ -252,6 +252,12 @@ def cells(tier, seed):
                 seen.add(k)
                 pick.append(c)
         out = pick
+        # cells that exposed defects repaired earlier (9340fa4: single-step downward integration; fefd880: ODE stage on a
+        # spinodal), kept in the quick tier as regression cells
+        extra = [dict(model="one", branch="sym", start=1.02, req=[1.01, 1.5], reqKind="in", dT=0.02, rTol=6, paranoid=False, u=0.01),
+                 dict(model="one", branch="sym", start=1.3, req=[0.8, 1.5], reqKind="lo", dT=0.001, rTol=8, paranoid=True, u=1.0)]
+        have = {json.dumps(c, sort_keys=True) for c in out}
+        out += [c for c in extra if json.dumps(c, sort_keys=True) not in have]
     else:
         out = out[:1200]
     # the reported ranges lose 2 dT at each end: dT must keep Tc inside the coexistence range
